@@ -611,7 +611,20 @@ func TestVerifC16(t *testing.T) {
 			}
 			a, b := c16tuple(x), c16tuple(y)
 			d, err, p := c16run(a, b)
-			name := fmt.Sprintf("%dx%d", sh[0], sh[1])
+			// did compose really go round its outer loop again?  (same set-up as diffSlice; ox/oy are only
+			// written by recordSeq when it gives up on a partial path)
+			retried := func() (r bool) {
+				defer func() { recover() }()
+				aa, bb := a.(starlark.Sliceable), b.(starlark.Sliceable)
+				mm, nn, rev := aa.Len(), bb.Len(), false
+				if mm >= nn {
+					aa, bb, mm, nn, rev = bb, aa, nn, mm, true
+				}
+				dd := differ{a: aa, b: bb, m: mm, n: nn, reverse: rev, depth: starlark.CompareLimit - 1, routeSize: defaultRouteSize}
+				dd.compose()
+				return dd.ox != 0 || dd.oy != 0
+			}()
+			name := fmt.Sprintf("%dx%d retried=%v", sh[0], sh[1], retried)
 			switch {
 			case p != "":
 				fmt.Fprintf(g.w, "BIG\t%s\tpanic %s\n", name, strings.ReplaceAll(p, "\n", " "))
